@@ -50,6 +50,12 @@ Inductive op :=
 | OProbeAll                          (* entities.is_alive of every handle returned so far *)
 | OStore (so : sop)                  (* a storage operation *)
 | ODropWorld                         (* drop(world) *)
+(* lazy updates: queued on the LazyUpdate resource, run by the next maintain *)
+| OLazyInsert (sid : N) (h : href) (v : tok)            (* lazy.insert(e, c) *)
+| OLazyInsertAll (sid : N) (l : list (href * tok))      (* lazy.insert_all(..) *)
+| OLazyRemove (sid : N) (h : href)                      (* lazy.remove::<C>(e) *)
+| OLazyExec (prog : list op)                            (* lazy.exec(|world| ..) / exec_mut: a closure running these operations *)
+| OQuiet (so : sop)                  (* a storage operation whose result nobody observes (performed by a lazy insert/remove) *)
 | OBad.                              (* undecodable: ignored by both sides *)
 
 Inductive wout :=
@@ -113,11 +119,18 @@ Definition dec_sop (code : Z) (p : list Z) : option sop :=
   | 41, [s; h; 4; _; v] => Some (SEntry (Z.to_N s) (Z.to_nat h) (EnSetVal v))
   | 42, [s; h] => Some (SGetMutOrDefault (Z.to_N s) (Z.to_nat h))
   | 50, [s] => Some (SRegister (Z.to_N s))
+  | 50, [s; _] => Some (SRegister (Z.to_N s))
   | 70, [s] => Some (SRegReader (Z.to_N s))
   | 71, [s; k] => Some (SReadEvents (Z.to_N s) (Z.to_nat k))
   | 72, [s; b] => Some (SSetEmission (Z.to_N s) (zb b))
   | _, _ => None
   end%Z.
+
+Fixpoint dec_htoks (l : list Z) : list (href * tok) :=
+  match l with
+  | h :: u :: v :: l' => (Z.to_nat h, (Z.to_N u, v)) :: dec_htoks l'
+  | _ => []
+  end.
 
 Definition dec_op (code : Z) (p : list Z) : op :=
   match code, p with
@@ -139,6 +152,9 @@ Definition dec_op (code : Z) (p : list Z) : op :=
   | 23, [h] => OEntityAt (Z.to_nat h)
   | 24, [] => OProbeAll
   | 99, [] => ODropWorld
+  | 60, [s; h; u; v] => OLazyInsert (Z.to_N s) (Z.to_nat h) (Z.to_N u, v)
+  | 61, s :: r => OLazyInsertAll (Z.to_N s) (dec_htoks r)
+  | 62, [s; h] => OLazyRemove (Z.to_N s) (Z.to_nat h)
   | _, _ => match dec_sop code p with Some so => OStore so | None => OBad end
   end%Z.
 
@@ -149,7 +165,8 @@ Fixpoint dec_ops (fuel : nat) (l : list Z) : list op :=
       match l with
       | code :: n :: l' =>
           match take_n (Z.to_nat n) l' with
-          | Some (p, rest) => dec_op code p :: dec_ops fuel' rest
+          | Some (p, rest) =>
+              (if Z.eqb code 63 then OLazyExec (dec_ops fuel' p) else dec_op code p) :: dec_ops fuel' rest
           | None => [OBad]
           end
       | [] => []
